@@ -91,7 +91,8 @@ pub fn run(ctx: &Ctx, reg: &Registry) -> i32 {
                 if !shard_of(unit, shard, n) {
                     continue;
                 }
-                let case = gen_case(reg, s, ctx.seed.wrapping_add(1515), i, false);
+                // unique keys (order is legitimately observable otherwise), but non-finite floats and non-canonical numbers are in
+                let case = gen_case_h(reg, s, ctx.seed.wrapping_add(1515), i, Host { dup: false, nonfinite: i % 2 == 0, noncanon: i % 2 == 0, alias: false });
                 let objects: Vec<Path> = all_paths(&case.payload).into_iter().filter(|p| matches!(resolve(&case.payload, p), Some(Ov::Map(m)) if m.len() >= 2)).collect();
                 if objects.is_empty() {
                     continue;
